@@ -10,4 +10,5 @@ INVARIANT Bounded
 PROPERTY ImmutableConst
 PROPERTY AtMostOneChanges
 PROPERTY OptsOnlyBySetopt
+PROPERTY RefinesPosMachine
 CHECK_DEADLOCK FALSE
